@@ -29,6 +29,7 @@ type Clause struct {
 
 type Contract struct {
 	PkgPath string
+	ExternPkg string // `extern` contracts: package name as written
 	TypePkg string // extern contracts: package path of the interface/struct type (default: PkgPath)
 	Name    string // ssa RelString, e.g. "(*SwapData).getTimelockPolicy"; for interfaces "Iface.Method"
 	IsIface bool
@@ -39,6 +40,8 @@ type Contract struct {
 	Assigns []ast.Expr
 	HasAssigns bool
 	Inline, Trusted, NoPanic, Pure, Havoc bool
+	PureValue bool
+	PureRef   bool
 	MustCall []*Clause // "mustcall" style clauses are expressed through ghosts; reserved
 	Forall   []GhostDecl
 	checkedUsable, unusable bool
@@ -72,6 +75,20 @@ type ContractSet struct {
 	Durables   []*Durable
 	Encaps     []*EncapDecl
 	Defines    map[string]*Define // spec macros, by name (all packages)
+	Secrets    []*SecretDecl      // information-flow labels (C23)
+}
+
+// SecretDecl: `secret T.F ...` (the field holds a secret), `secretresult F ...`
+// (the function's results are secret), `nosecret T.F ...` (no value that depends
+// on a secret may be stored into the field: it leaves the node or is persisted
+// for sending).
+type SecretDecl struct {
+	PkgPath string
+	Kind    string // secret | secretresult | nosecret
+	Names   []string
+	Props   []string
+	File    string
+	Line    int
 }
 
 // Define: a spec-level macro `define name(p1, p2) expr`; a call in a spec is
@@ -224,6 +241,21 @@ func (cs *ContractSet) parseFile(pkgPath, file string) error {
 			}
 			cs.Funcs[key] = cur
 			curLemma = nil
+		case "extern":
+			// extern <pkgname> <RelName>: ASSUMED contract of a function or method of another
+			// package (a dependency); never verified, listed as trusted. Clauses are
+			// evaluated in the declaring package's scope.
+			fs := strings.SplitN(rest, " ", 2)
+			if len(fs) != 2 {
+				return fmt.Errorf("%s:%d: extern <pkgname> <function>", file, lineNo)
+			}
+			cur = &Contract{PkgPath: pkgPath, Name: strings.TrimSpace(fs[1]), Trusted: true, ExternPkg: fs[0], Loops: map[int][]*Clause{}, File: file, Line: lineNo}
+			key := "extern:" + fs[0] + "::" + cur.Name
+			if _, dup := cs.Funcs[key]; dup {
+				return fmt.Errorf("%s:%d: duplicate contract for %s", file, lineNo, rest)
+			}
+			cs.Funcs[key] = cur
+			curLemma = nil
 		case "property":
 			ps := strings.Fields(rest)
 			if curLemma != nil {
@@ -352,6 +384,16 @@ func (cs *ContractSet) parseFile(pkgPath, file string) error {
 				return fmt.Errorf("%s:%d: duplicate define %s", file, lineNo, d.Name)
 			}
 			cs.Defines[d.Name] = d
+		case "secret", "secretresult", "nosecret":
+			d := &SecretDecl{PkgPath: pkgPath, Kind: kw, File: file, Line: lineNo}
+			for _, f := range strings.Fields(rest) {
+				if strings.HasPrefix(f, "@") {
+					d.Props = append(d.Props, strings.Split(f[1:], ",")...)
+				} else {
+					d.Names = append(d.Names, f)
+				}
+			}
+			cs.Secrets = append(cs.Secrets, d)
 		case "stateunits":
 			// stateunits <table> <props...> : properties whose check runs the per-state units of that table
 			fs := strings.Fields(rest)
@@ -390,6 +432,16 @@ func (cs *ContractSet) parseFile(pkgPath, file string) error {
 			cur.NoPanic = true
 		case "pure":
 			cur.Pure = true
+		case "pureref":
+			// like pure, for methods of immutable objects: a function of the argument
+			// values (references included) only, not of the heap (ASSUMED: the objects
+			// reachable from the arguments are never modified after construction)
+			cur.Pure = true
+			cur.PureRef = true
+		case "purevalue":
+			// like pure, and pointer parameters are taken by the value they point to
+			cur.Pure = true
+			cur.PureValue = true
 		case "havoc":
 			cur.Havoc = true
 		case "ghost":
